@@ -354,6 +354,108 @@ def c03_case(args):
     return res
 
 
+def c03_json_case(args):
+    """The property's own observation point: StaticSchema::EncodeJson / DecodeJson, with real nlohmann::json values built by
+    harness code from a flat symbolic argument area (verif/cxx.py:dyn_harness_source(dynamic=False)); oracle: refspec."""
+    schema, tier = args
+    add_repo_paths()
+    from .. import cxxnatives
+    res = new_result()
+    known = Known("C03")
+    top = schema.top
+    T = ("struct", top)
+    desc = schema.describe()
+    feats = {"desc": desc, "fixed": is_fixed(schema, T), "has_enum": has_kind(schema, T, ("enum",)), "entry": "json",
+             "decl_in_id_order": all([fid for _, fid, _ in fs] == sorted(fid for _, fid, _ in fs) for _, fs in schema.structs),
+             "has_array_of_struct": any(t[0] == "arr" and t[1][0] == "struct" for _, fs in schema.structs for _, _, t in fs),
+             "enum_max": max([schema.enum_max(e) for e in schema.enums] or [0])}
+    base = {"schema_text": schema.text(), "top": top, "schema": {"structs": schema.structs, "enums": schema.enums, "top": top}}
+    with Scratch() as d:
+        try:
+            from ..prime import prime, decoy_text
+            base["decoy_text"] = decoy_text(schema)
+            prime(base["decoy_text"], ("cpp",))
+            cxx.generate_cpp(schema.text(), d)
+            open(os.path.join(d, "harness.cpp"), "w").write(cxx.dyn_harness_source(schema, dynamic=False))
+            ok, ll = cxx.compile_to_ir(d)
+        except Exception as e:
+            ok, ll = False, f"{type(e).__name__}: {e}"
+        if not ok:
+            res["inconclusive"].append(f"{desc}|json: harness TU did not compile (the typed case of this schema reports compile errors): {str(ll)[-200:]}")
+            return res
+        mod = llsym.Mod()
+        llsym.parse_module(open(ll).read(), mod)
+        steps = 0
+        for ii, inst in enumerate(instances(schema, tier)):
+            nonnan = [z3.Not(z3.fpIsNaN(z3.fpBVToFP(inst.vars[p_].e, z3.Float32() if k_ == "f32" else z3.Float64())))
+                      for p_, (k_, _) in inst.kinds.items() if k_ in ("f32", "f64")]
+            assume = inst.assume + nonnan
+            canon = refspec.canon_bytes(schema, T, inst.value)
+            area, exp_dump = [], []
+            cxx.marshal(schema, T, inst.value, area, enum_bits=64)
+            cxx.marshal(schema, T, inst.value, exp_dump, enum_bits=64, iflag=True)
+            env = {"v": {p: x.e for p, x in inst.vars.items()},
+                   "enums": {p: True for p, (k, w) in inst.kinds.items() if k == "enum"}}
+            m = llsym.Machine(mod)
+            install_natives(m)
+            cxxnatives.install(m)
+            m.step_budget = 10 ** 12
+            argp = m.alloc(len(area) + 16)
+            inp = m.alloc(len(canon) + 16)
+            outp = m.alloc(len(canon) + 256)
+            areap = m.alloc(len(exp_dump) + 256)
+            for base_, bs in ((argp, area), (inp, canon)):
+                for i, b in enumerate(bs):
+                    if not isinstance(b, int):
+                        sb = z3.simplify(b)
+                        b = sb.as_long() if z3.is_bv_value(sb) else sb
+                    m.mem[base_ + i] = b
+            snap, brk = dict(m.mem), m.brk
+            for direction, fn, fargs, want in (("encode", "@sta_enc", [argp, outp], canon), ("decode", "@sta_dec", [inp, len(canon), areap], exp_dump)):
+                eng = Engine(timeout_ms=60000 if tier == "quick" else 300000, max_paths=200)
+                dst = fargs[-1]
+
+                def body(fn=fn, fargs=fargs, dst=dst):
+                    m.mem, m.brk = dict(snap), brk
+                    n = llsym.run(m, fn, fargs)
+                    if not isinstance(n, int):
+                        raise EngineLimit("result size is symbolic")
+                    n = llsym.sext(n, 64)
+                    return n, [m.mem[dst + i] for i in range(max(n, 0))]
+
+                def mk(mdl, direction=direction, want=want, inst=inst, area=area, canon=canon):
+                    ev = lambda bs: [b if isinstance(b, int) else mdl.eval(b, model_completion=True).as_long() for b in bs]
+                    return dict(base, kind="cpp_json", direction=direction, value=to_json(concretize(inst.value, mdl)),
+                                input=ev(area if direction == "encode" else canon), expected=ev(want))
+
+                try:
+                    for pi, (kind, out, pc) in enumerate(eng.explore(body, assume)):
+                        ob = f"{desc}|json|inst{ii}|{direction}|path{pi}"
+                        if kind == "exc":
+                            if isinstance(out, CxxThrow):
+                                decide(eng, pc, z3.BoolVal(True), prop="C03", ob_id=ob, res=res, known=known, features=feats, env=env,
+                                       make_replay=mk, what=f"StaticSchema::{direction.capitalize()}Json threw {out} on {desc}")
+                            else:
+                                res["inconclusive"].append(f"{ob}: interpreter stopped: {type(out).__name__}: {str(out)[:200]}")
+                            continue
+                        n, bs = out
+                        if n != len(want):
+                            viol = z3.BoolVal(True)
+                        else:
+                            viol = z3.Not(z3.And(*[llsym.bv(x, 8) == llsym.bv(c, 8) for x, c in zip(bs, want)])) if want else z3.BoolVal(False)
+                        decide(eng, pc, viol, prop="C03", ob_id=ob, res=res, known=known, features=feats, env=env, make_replay=mk,
+                               what=(f"StaticSchema::EncodeJson bytes != canonical bytes on {desc}" if direction == "encode" else
+                                     f"StaticSchema::DecodeJson of the canonical bytes != the value on {desc}"))
+                except EngineLimit as e:
+                    res["inconclusive"].append(f"{desc}|json|inst{ii}|{direction}: engine limit: {e}")
+                finish_engine(res, eng)
+            steps += m.steps
+        res["functions"] = ["generated:fcp.h:StaticSchema::EncodeJson/DecodeJson", f"generated:fcp.h:{top}::FromJson/DecodeJson/Encode/Decode",
+                            "decoders.h:*::FromJson/DecodeJson", "buffer.h:Buffer::*", "nlohmann/json.hpp (interpreted)"]
+        res["sample"] = {"schema": desc, "entry": "StaticSchema JSON", "ir_steps": steps, "paths": res["paths"], "queries": res["queries"]}
+    return res
+
+
 def c03_kernel_case(args):
     """_to_highest_power_of_two / ToCpp with symbolic N in 1..64: carrier in {8,16,32,64} and >= N (pysym)."""
     tier = args[0]
@@ -401,6 +503,8 @@ def c03_kernel_case(args):
 def _dispatch(args):
     if args[0] == "kernel":
         return c03_kernel_case(args[1:])
+    if args[0] == "json":
+        return c03_json_case(args[1:])
     return c03_case(args[1:])
 
 
@@ -415,15 +519,21 @@ def run_c03(tier: str) -> int:
         "values": "Encode: all in-range values of each instance (length/presence patterns of verif.values); Decode: all "
                   "buffers of the canonical length for fixed-size shapes, canonical images of all values otherwise",
         "ir": "clang++-14 -std=c++17 -O1 IR of a generated harness TU including the generated fcp.h",
-        "outside": "JSON entry points (FromJson/DecodeJson/EncodeJson/StaticSchema), rpc/service headers, "
-                   "Endianess::Big, float NaN payloads on decode",
+        "json_entry": "StaticSchema::EncodeJson/DecodeJson with real nlohmann::json values (interpreted) for a third of the "
+                      "width family and all other shapes (quick) / every schema (thorough): bytes == canonical bytes, "
+                      "decoded JSON dumped field by field == the value (signed fields must be signed JSON numbers)",
+        "outside": "rpc/service headers, Endianess::Big, float NaN payloads, Optional of a container through JSON",
     }
     rep.stubs = ["operator new/delete (fresh 0xAA-filled block)", "basic_string::_M_create (libstdc++ capacity rule)",
                  "memcmp/strlen", "__cxa_throw & std::__throw_* end the path as a C++ exception", "llvm.* intrinsics"]
     rep.assumptions = ["the harness TU only builds typed values from a flat argument area and calls the generated "
                        "Encode/Decode (verif/cxx.py)", "g++ -fsyntax-only must accept the generated fcp.h as well",
                        "oracle: refspec canonical bytes"]
-    cases = [("kernel", tier)] + [("schema", s, tier) for s in fam]
+    # the JSON entry points (the property's own observation point): every 3rd schema quick, all thorough; no Optional of a
+    # container (the static JSON cannot tell null from empty)
+    jfam = [s for i, s in enumerate(fam) if (tier == "thorough" or i % 3 == 0 or i >= len(fam) - 12)
+            and not any(t[0] == "opt" and t[1][0] in ("dyn", "str", "opt") for _, fs in s.structs for _, _, t in fs)]
+    cases = [("kernel", tier)] + [("schema", s, tier) for s in fam] + [("json", s, tier) for s in jfam]
     for r in pmap(_dispatch, cases):
         rep.merge(r)
         if rep.red_enough():
